@@ -1,5 +1,525 @@
-//! C03 - monitor not built yet.
+//! C03 - Filters follow set algebra; a bounded page is an end of the full result.
+//! Differential monitor: generated filter trees over `_id` and every B-tree index of fixture F
+//! (both the filter level and the range-query level, within the documented complexity budget)
+//! are evaluated by the real collection and by a harness set-algebra evaluator over the model;
+//! every limit and both entry points are compared with the first/last elements of the full
+//! result; metamorphic equalities run on the real code alone; `search_ids` with a filter is
+//! recomputed from the public index views.
+
+use anda_db::collection::Collection;
+use anda_db::query::{Filter, Query, RRFReranker, RangeQuery, Search};
+use anda_db::schema::Fv;
+use std::collections::{BTreeMap, BTreeSet};
+use std::sync::Arc;
+use v_db::audit::composite_key;
+use v_db::driver::{Driver, GenCfg, Op, Step, gen_op};
+use v_db::{Cfg, FDoc, IndexSet, Model, VOCAB, gen_doc};
+use vcore::recstore::RecStore;
+use vcore::run::block_on;
+use vcore::{Rng, Run, Stats, Value, json};
+
+const MAX: usize = Collection::MAX_SEARCH_LIMIT;
+
+#[derive(Clone, Debug, PartialEq, Eq, PartialOrd, Ord)]
+enum K {
+    N(i128),
+    T(String),
+    B(Vec<u8>),
+}
+
+fn k_of(v: &Fv) -> Option<K> {
+    match v {
+        Fv::I64(x) => Some(K::N(*x as i128)),
+        Fv::U64(x) => Some(K::N(*x as i128)),
+        Fv::Text(s) => Some(K::T(s.clone())),
+        Fv::Bytes(b) => Some(K::B(b.clone())),
+        _ => None,
+    }
+}
+
+const FIELDS: [&str; 8] = ["_id", "age", "score", "uname", "tags", "codes", "attrs", "grp-slot"];
+
+fn doc_keys(id: u64, d: &FDoc, field: &str) -> Vec<K> {
+    match field {
+        "_id" => vec![K::N(id as i128)],
+        "age" => vec![K::N(d.age as i128)],
+        "score" => d.score.map(|s| K::N(s as i128)).into_iter().collect(),
+        "uname" => vec![K::T(d.uname.clone())],
+        "tags" => d.tags.iter().map(|t| K::T(t.clone())).collect(),
+        "codes" => d.codes.iter().map(|t| K::T(t.clone())).collect(),
+        "attrs" => d.attrs.keys().map(|t| K::T(t.clone())).collect(),
+        _ => vec![k_of(&composite_key(&d.grp, d.slot)).unwrap()],
+    }
+}
+
+/// A key the generator may use for a field: in-range values, values between stored keys, and
+/// values outside the stored range.
+fn gen_key(rng: &mut Rng, field: &str, m: &Model) -> Fv {
+    let some_doc = if m.docs.is_empty() { None } else { m.docs.values().nth(rng.usize(m.docs.len())) };
+    match field {
+        "_id" => Fv::U64(match rng.below(4) {
+            0 => rng.below(m.max_id() + 3),
+            1 => m.max_id() + 1 + rng.below(3),
+            _ => m.docs.keys().nth(rng.usize(m.docs.len().max(1))).copied().unwrap_or(0),
+        }),
+        "age" => Fv::U64(match (rng.below(3), some_doc) {
+            (0, Some(d)) => d.age,
+            _ => *rng.pick(&[0u64, 1, 17, 18, 19, 23, 24, 25, 30, 65, 255, 256, 1000, u64::MAX]),
+        }),
+        "score" => {
+            let x = match (rng.below(3), some_doc.and_then(|d| d.score)) {
+                (0, Some(s)) => s,
+                _ => *rng.pick(&[i64::MIN, -51, -50, -10, -1, 0, 1, 10, 49, 50, i64::MAX]),
+            };
+            // a non-negative I64 key may also arrive in its generic read-back shape
+            if x >= 0 && rng.chance(1, 3) { Fv::U64(x as u64) } else { Fv::I64(x) }
+        }
+        "uname" => Fv::Text(match (rng.below(3), some_doc) {
+            (0, Some(d)) => d.uname.clone(),
+            _ => format!("u{}", rng.below(40)),
+        }),
+        "tags" => Fv::Text(format!("t{}", rng.below(8))),
+        "codes" => Fv::Text(match (rng.below(3), some_doc.and_then(|d| d.codes.first())) {
+            (0, Some(c)) => c.clone(),
+            _ => format!("c{}", rng.below(70)),
+        }),
+        "attrs" => Fv::Text(format!("a{}", rng.below(7))),
+        _ => match (rng.below(4), some_doc) {
+            (0, _) | (_, None) => composite_key(&format!("g{}", rng.below(3)), rng.below(40)),
+            (_, Some(d)) => composite_key(&d.grp, d.slot),
+        },
+    }
+}
+
+fn gen_rq(rng: &mut Rng, field: &str, m: &Model, depth: usize) -> RangeQuery<Fv> {
+    if depth == 0 || rng.chance(3, 5) {
+        let k = gen_key(rng, field, m);
+        match rng.below(8) {
+            0 | 1 => RangeQuery::Eq(k),
+            2 => RangeQuery::Gt(k),
+            3 => RangeQuery::Ge(k),
+            4 => RangeQuery::Lt(k),
+            5 => RangeQuery::Le(k),
+            6 => RangeQuery::Between(k, gen_key(rng, field, m)), // inverted ones included
+            _ => RangeQuery::Include((0..rng.usize(5)).map(|_| if rng.chance(1, 4) { k.clone() } else { gen_key(rng, field, m) }).collect()),
+        }
+    } else {
+        match rng.below(3) {
+            0 => RangeQuery::And((0..rng.usize(4)).map(|_| Box::new(gen_rq(rng, field, m, depth - 1))).collect()),
+            1 => RangeQuery::Or((0..rng.usize(4)).map(|_| Box::new(gen_rq(rng, field, m, depth - 1))).collect()),
+            _ => RangeQuery::Not(Box::new(gen_rq(rng, field, m, depth - 1))),
+        }
+    }
+}
+
+fn gen_filter(rng: &mut Rng, m: &Model, depth: usize) -> Filter {
+    if depth == 0 || rng.chance(2, 5) {
+        let field = *rng.pick(&FIELDS);
+        let d = if rng.chance(1, 3) { 2 } else { 0 };
+        Filter::Field((field.to_string(), gen_rq(rng, field, m, d)))
+    } else {
+        match rng.below(3) {
+            0 => Filter::And((0..1 + rng.usize(3)).map(|_| Box::new(gen_filter(rng, m, depth - 1))).collect()),
+            1 => Filter::Or((0..1 + rng.usize(3)).map(|_| Box::new(gen_filter(rng, m, depth - 1))).collect()),
+            _ => Filter::Not(Box::new(gen_filter(rng, m, depth - 1))),
+        }
+    }
+}
+
+fn key_matches(k: &K, q: &RangeQuery<Fv>) -> bool {
+    let c = |v: &Fv| k_of(v);
+    match q {
+        RangeQuery::Eq(x) => c(x).as_ref() == Some(k),
+        RangeQuery::Gt(x) => c(x).map(|x| *k > x).unwrap_or(false),
+        RangeQuery::Ge(x) => c(x).map(|x| *k >= x).unwrap_or(false),
+        RangeQuery::Lt(x) => c(x).map(|x| *k < x).unwrap_or(false),
+        RangeQuery::Le(x) => c(x).map(|x| *k <= x).unwrap_or(false),
+        RangeQuery::Between(a, b) => match (c(a), c(b)) {
+            (Some(a), Some(b)) => a <= b && *k >= a && *k <= b,
+            _ => false,
+        },
+        RangeQuery::Include(v) => v.iter().any(|x| c(x).as_ref() == Some(k)),
+        RangeQuery::And(v) => !v.is_empty() && v.iter().all(|q| key_matches(k, q)),
+        RangeQuery::Or(v) => v.iter().any(|q| key_matches(k, q)),
+        RangeQuery::Not(q) => !key_matches(k, q),
+    }
+}
+
+/// Set-algebra reading: a field predicate matches the documents owning at least one indexed key
+/// that satisfies the range query; And = intersection, Or = union, Not = complement within the
+/// live documents.
+fn eval(m: &Model, f: &Filter) -> BTreeSet<u64> {
+    match f {
+        Filter::Field((field, q)) => m
+            .docs
+            .iter()
+            .filter(|(id, d)| doc_keys(**id, d, field).iter().any(|k| key_matches(k, q)))
+            .map(|(id, _)| *id)
+            .collect(),
+        Filter::And(v) => {
+            let mut it = v.iter();
+            let mut s = it.next().map(|f| eval(m, f)).unwrap_or_default();
+            for f in it {
+                let o = eval(m, f);
+                s.retain(|x| o.contains(x));
+            }
+            s
+        }
+        Filter::Or(v) => v.iter().flat_map(|f| eval(m, f)).collect(),
+        Filter::Not(f) => {
+            let o = eval(m, f);
+            m.docs.keys().filter(|x| !o.contains(x)).copied().collect()
+        }
+    }
+}
+
+fn shape_rq(q: &RangeQuery<Fv>) -> String {
+    match q {
+        RangeQuery::Eq(_) => "Eq".into(),
+        RangeQuery::Gt(_) => "Gt".into(),
+        RangeQuery::Ge(_) => "Ge".into(),
+        RangeQuery::Lt(_) => "Lt".into(),
+        RangeQuery::Le(_) => "Le".into(),
+        RangeQuery::Between(..) => "Btw".into(),
+        RangeQuery::Include(v) => format!("Inc{}", v.len().min(3)),
+        RangeQuery::And(v) => format!("and({})", v.iter().map(|q| shape_rq(q)).collect::<Vec<_>>().join(",")),
+        RangeQuery::Or(v) => format!("or({})", v.iter().map(|q| shape_rq(q)).collect::<Vec<_>>().join(",")),
+        RangeQuery::Not(q) => format!("not({})", shape_rq(q)),
+    }
+}
+fn shape(f: &Filter) -> String {
+    match f {
+        Filter::Field((n, q)) => format!("{n}:{}", shape_rq(q)),
+        Filter::And(v) => format!("AND({})", v.iter().map(|q| shape(q)).collect::<Vec<_>>().join(",")),
+        Filter::Or(v) => format!("OR({})", v.iter().map(|q| shape(q)).collect::<Vec<_>>().join(",")),
+        Filter::Not(q) => format!("NOT({})", shape(q)),
+    }
+}
+fn top_kind(f: &Filter) -> &'static str {
+    match f {
+        Filter::Field((n, _)) if n == "_id" => "top:_id",
+        Filter::Field(_) => "top:index_field",
+        Filter::And(_) => "top:And",
+        Filter::Or(_) => "top:Or",
+        Filter::Not(_) => "top:Not",
+    }
+}
+
+fn expect_page(full: &[u64], limit: Option<usize>, last: bool) -> Vec<u64> {
+    let l = match limit {
+        Some(0) => return vec![],
+        None => MAX,
+        Some(l) => l.min(MAX),
+    };
+    if full.len() <= l {
+        full.to_vec()
+    } else if last {
+        full[full.len() - l..].to_vec()
+    } else {
+        full[..l].to_vec()
+    }
+}
+
+async fn check_filter(c: &Collection, m: &Model, f: &Filter, rng: &mut Rng, st: &mut Stats, ctx: &dyn Fn() -> Value, all_limits: bool) -> bool {
+    let full: Vec<u64> = eval(m, f).into_iter().collect();
+    let fs = format!("{f:?}");
+    let fail = |st: &mut Stats, sig: String, d: Value| {
+        st.violation(sig, json!({"filter": fs, "detail": d, "context": ctx()}));
+    };
+    st.eval();
+    st.count("oracle_query_all_ids");
+    st.count(top_kind(f));
+    st.set("filter_shapes", vcore::fnv_str(&shape(f)));
+    match c.query_all_ids(f.clone()).await {
+        Ok(got) => {
+            if got != full {
+                fail(st, format!("C03/query_all_ids/{}", top_kind(f)), json!({"got": got, "expected": full}));
+                return false;
+            }
+        }
+        Err(e) => {
+            fail(st, format!("C03/query_all_ids_error/{}", top_kind(f)), json!(format!("{e:?}")));
+            return false;
+        }
+    }
+    if !full.is_empty() {
+        st.count("filters_with_matches");
+    }
+    let n = full.len();
+    let mut limits: Vec<Option<usize>> = vec![None, Some(0), Some(1), Some(MAX), Some(MAX + 1)];
+    if all_limits {
+        limits.extend((2..=n + 1).map(Some));
+    } else {
+        limits.push(Some(2));
+        limits.push(Some(n.max(1)));
+        limits.push(Some(n + 1));
+        if n > 2 {
+            limits.push(Some(1 + rng.usize(n - 1)));
+        }
+    }
+    for l in limits {
+        for last in [false, true] {
+            let exp = expect_page(&full, l, last);
+            let got = if last { c.query_last_ids(f.clone(), l).await } else { c.query_ids(f.clone(), l).await };
+            st.count(if last { "oracle_query_last_ids" } else { "oracle_query_ids" });
+            if l.map(|x| x > 0 && x < n).unwrap_or(false) {
+                st.count("oracle_truncating_pages");
+            }
+            match got {
+                Ok(got) => {
+                    if got != exp {
+                        fail(st, format!("C03/{}/{}", if last { "query_last_ids" } else { "query_ids" }, top_kind(f)),
+                             json!({"limit": l, "got": got, "expected": exp, "full_result": full}));
+                        return false;
+                    }
+                }
+                Err(e) => {
+                    fail(st, format!("C03/{}_error", if last { "query_last_ids" } else { "query_ids" }), json!({"limit": l, "error": format!("{e:?}")}));
+                    return false;
+                }
+            }
+        }
+    }
+    true
+}
+
+async fn metamorphic(c: &Collection, m: &Model, rng: &mut Rng, st: &mut Stats, ctx: &dyn Fn() -> Value) {
+    let field = *rng.pick(&FIELDS[..7]);
+    let a = gen_key(rng, field, m);
+    let b = gen_key(rng, field, m);
+    let leaf = |q: RangeQuery<Fv>| Filter::Field((field.to_string(), q));
+    let f1 = gen_filter(rng, m, 2);
+    let f2 = gen_filter(rng, m, 2);
+    let bx = |f: &Filter| Box::new(f.clone());
+    let rq1 = gen_rq(rng, field, m, 1);
+    let rq2 = gen_rq(rng, field, m, 1);
+    let pairs: Vec<(&str, Filter, Filter)> = vec![
+        ("between_vs_and_ge_le", leaf(RangeQuery::Between(a.clone(), b.clone())),
+            leaf(RangeQuery::And(vec![Box::new(RangeQuery::Ge(a.clone())), Box::new(RangeQuery::Le(b.clone()))]))),
+        ("double_negation", Filter::Not(Box::new(Filter::Not(bx(&f1)))), f1.clone()),
+        ("and_commutes", Filter::And(vec![bx(&f1), bx(&f2)]), Filter::And(vec![bx(&f2), bx(&f1)])),
+        ("or_commutes", Filter::Or(vec![bx(&f1), bx(&f2)]), Filter::Or(vec![bx(&f2), bx(&f1)])),
+        ("de_morgan", Filter::Not(Box::new(Filter::And(vec![bx(&f1), bx(&f2)]))),
+            Filter::Or(vec![Box::new(Filter::Not(bx(&f1))), Box::new(Filter::Not(bx(&f2)))])),
+        ("or_at_filter_vs_range_level", Filter::Or(vec![Box::new(leaf(rq1.clone())), Box::new(leaf(rq2.clone()))]),
+            leaf(RangeQuery::Or(vec![Box::new(rq1.clone()), Box::new(rq2.clone())]))),
+    ];
+    for (name, x, y) in pairs {
+        let l = *rng.pick(&[None, Some(1), Some(2), Some(3), Some(5)]);
+        for last in [false, true] {
+            let (rx, ry) = if last {
+                (c.query_last_ids(x.clone(), l).await, c.query_last_ids(y.clone(), l).await)
+            } else {
+                (c.query_ids(x.clone(), l).await, c.query_ids(y.clone(), l).await)
+            };
+            st.count("oracle_metamorphic_pairs");
+            match (rx, ry) {
+                (Ok(a), Ok(b)) => {
+                    if a != b {
+                        st.violation(format!("C03/metamorphic/{name}"), json!({"left": format!("{x:?}"), "right": format!("{y:?}"), "limit": l, "last": last,
+                            "left_result": a, "right_result": b, "context": ctx()}));
+                        return;
+                    }
+                }
+                (a, b) => {
+                    st.violation(format!("C03/metamorphic_error/{name}"), json!({"left": format!("{x:?}"), "right": format!("{y:?}"),
+                        "left_result": format!("{a:?}"), "right_result": format!("{b:?}"), "context": ctx()}));
+                    return;
+                }
+            }
+        }
+    }
+}
+
+/// search_ids{search, filter, limit} == relevance-ordered candidates (recomputed from the index
+/// views with the documented top_k) restricted to the model's match set, cut to limit.
+async fn check_search(c: &Collection, m: &Model, rng: &mut Rng, st: &mut Stats, ctx: &dyn Fn() -> Value) {
+    let f = gen_filter(rng, m, 2);
+    let matches = eval(m, &f);
+    let limit = *rng.pick(&[None, Some(0usize), Some(1), Some(2), Some(3), Some(10), Some(MAX + 1)]);
+    let eff = limit.unwrap_or(10).min(MAX);
+    let top_k = (eff * 10).min(4096);
+    let text = if rng.chance(2, 3) { Some(format!("{} {}", rng.pick(&VOCAB), rng.pick(&VOCAB))) } else { None };
+    let vector: Option<Vec<f32>> = if text.is_none() || rng.bool() { Some(v_db::gen_vec(rng).iter().map(|x| x.to_f32()).collect()) } else { None };
+    let mut lists: Vec<Vec<u64>> = vec![];
+    if let Some(t) = &text {
+        lists.push(c.get_bm25_index(&["body"]).unwrap().search(t, top_k, None).into_iter().map(|r| r.0).collect());
+    }
+    if let Some(v) = &vector {
+        lists.push(c.get_hnsw_index("embedding").unwrap().search(v, top_k).into_iter().map(|r| r.0).collect());
+    }
+    let mut exp: Vec<u64> = vec![];
+    if eff > 0 {
+        let mut seen = BTreeSet::new();
+        for (id, _) in RRFReranker::default().rerank(&lists) {
+            if seen.insert(id) && matches.contains(&id) {
+                exp.push(id);
+            }
+        }
+        exp.truncate(eff);
+    }
+    let q = Query { search: Some(Search { text: text.clone(), vector: vector.clone(), ..Default::default() }), filter: Some(f.clone()), limit };
+    st.count("oracle_search_ids_with_filter");
+    if !exp.is_empty() {
+        st.count("search_ids_nonempty_expectations");
+    }
+    match c.search_ids(q).await {
+        Ok(got) => {
+            if got != exp {
+                st.violation("C03/search_ids_with_filter", json!({"filter": format!("{f:?}"), "text": text, "vector": vector, "limit": limit,
+                    "got": got, "expected": exp, "match_set": matches, "candidate_lists": lists, "context": ctx()}));
+            }
+        }
+        Err(e) => st.violation("C03/search_ids_error", json!({"filter": format!("{f:?}"), "error": format!("{e:?}"), "context": ctx()})),
+    }
+    // filter-only search: the smallest `limit` ids of the match set
+    let q = Query { search: None, filter: Some(f.clone()), limit };
+    let full: Vec<u64> = matches.iter().copied().collect();
+    let exp: Vec<u64> = if eff == 0 { vec![] } else { full.iter().take(eff).copied().collect() };
+    st.count("oracle_search_ids_filter_only");
+    match c.search_ids(q).await {
+        Ok(got) => {
+            if got != exp {
+                st.violation(format!("C03/search_ids_filter_only/{}", top_kind(&f)), json!({"filter": format!("{f:?}"), "limit": limit, "got": got, "expected": exp, "full_result": full, "context": ctx()}));
+            }
+        }
+        Err(e) => st.violation("C03/search_ids_filter_only_error", json!({"filter": format!("{f:?}"), "error": format!("{e:?}"), "context": ctx()})),
+    }
+}
+
+async fn refusals(c: &Collection, st: &mut Stats) {
+    // over the documented budget: refused, never evaluated
+    let mut deep = Filter::Field(("age".into(), RangeQuery::Eq(Fv::U64(1))));
+    for _ in 0..70 {
+        deep = Filter::Not(Box::new(deep));
+    }
+    let wide = Filter::Field(("age".into(), RangeQuery::Include((0..5000).map(Fv::U64).collect())));
+    for (name, f) in [("too_deep", deep), ("include_too_wide", wide)] {
+        st.count("oracle_budget_refusals");
+        if let Ok(r) = c.query_ids(f.clone(), Some(3)).await {
+            st.violation(format!("C03/over_budget_filter_accepted/{name}"), json!({"result_len": r.len()}));
+        }
+        if let Ok(r) = c.query_all_ids(f).await {
+            st.violation(format!("C03/over_budget_filter_accepted_all/{name}"), json!({"result_len": r.len()}));
+        }
+    }
+    // a key of the wrong type is an error, not an empty result
+    for (name, f) in [
+        ("text_key_on_u64_index", Filter::Field(("age".into(), RangeQuery::Eq(Fv::Text("x".into()))))),
+        ("u64_key_on_text_index", Filter::Field(("uname".into(), RangeQuery::Ge(Fv::U64(1))))),
+        ("unknown_index", Filter::Field(("nope".into(), RangeQuery::Eq(Fv::U64(1))))),
+    ] {
+        st.count("oracle_type_mismatch_refusals");
+        if let Ok(r) = c.query_all_ids(f).await {
+            st.violation(format!("C03/mistyped_filter_accepted/{name}"), json!({"result": r}));
+        }
+    }
+}
+
+fn case(case: u64, rng: &mut Rng, st: &mut Stats, n_filters: usize, big: bool) {
+    let cfg = Cfg::random(rng);
+    let store = RecStore::new();
+    store.set_record_reads(false);
+    block_on(async {
+        let mut d = match Driver::start(Arc::new(store.clone()), cfg, IndexSet::ALL).await {
+            Ok(d) => d,
+            Err(e) => {
+                st.violation("C03/setup_failed", json!(format!("{e:?}")));
+                return;
+            }
+        };
+        // population: ids made non-contiguous by interleaved removes; values independent of id
+        let n_ops = if big { 0 } else { rng.usize(90) };
+        let g = GenCfg { contention: 40, allow_reopen: false, allow_index_change: false, allow_maintenance: false, rejects: false };
+        for _ in 0..n_ops {
+            let op = gen_op(rng, &d.model, d.set, &g);
+            if let Step::Wrong(sig, det) = d.step(&op, st).await {
+                st.violation(format!("C03/populate/{sig}"), json!({"detail": det, "context": d.ctx()}));
+                return;
+            }
+        }
+        if big {
+            // one collection with more matches than MAX_SEARCH_LIMIT so that the clamp is exercised
+            for i in 0..(MAX as u64 + 150) {
+                let mut doc = gen_doc(rng, 1_000_000);
+                doc.uname = format!("big{i}");
+                doc.codes = vec![];
+                doc.slot = i;
+                if let Step::Wrong(sig, det) = d.step(&Op::Add(doc), st).await {
+                    st.violation(format!("C03/populate/{sig}"), json!({"detail": det}));
+                    return;
+                }
+                if i % 7 == 3 {
+                    let _ = d.step(&Op::Remove(i / 2 + 1), st).await;
+                }
+            }
+            st.count("big_collections");
+        }
+        let hist = if big { vec!["<1150 generated adds with interleaved removes>".to_string()] } else { d.history.clone() };
+        let model = d.model.clone();
+        let summary: BTreeMap<u64, String> = model.docs.iter().take(80).map(|(id, x)| (*id, format!("age={} score={:?} uname={} tags={:?} codes={:?} attrs={:?} grp={} slot={}", x.age, x.score, x.uname, x.tags, x.codes, x.attrs.keys().collect::<Vec<_>>(), x.grp, x.slot))).collect();
+        let ctx = move || json!({"case": case, "cfg": format!("{cfg:?}"), "documents": summary, "history_len": hist.len()});
+        st.set("collections", vcore::fnv_str(&format!("{:?}", model.docs)));
+        st.max("max_documents", model.docs.len() as u64);
+        let mut nontrivial = 0;
+        for i in 0..n_filters {
+            let f = gen_filter(rng, &model, 3);
+            let before = st.get("filters_with_matches");
+            if !check_filter(&d.coll, &model, &f, rng, st, &ctx, !big && i % 5 == 0).await {
+                return;
+            }
+            if st.get("filters_with_matches") > before {
+                nontrivial += 1;
+                st.distinct(vcore::fnv_str(&format!("{}|{}", shape(&f), model.docs.len())) ^ case.rotate_left(17));
+            }
+        }
+        let _ = nontrivial;
+        if big {
+            // shapes that certainly match more than MAX documents
+            for f in [
+                Filter::Field(("age".into(), RangeQuery::Ge(Fv::U64(0)))),
+                Filter::Field(("_id".into(), RangeQuery::Ge(Fv::U64(0)))),
+                Filter::Not(Box::new(Filter::Field(("uname".into(), RangeQuery::Eq(Fv::Text("nobody".into())))))),
+                Filter::Or(vec![Box::new(Filter::Field(("age".into(), RangeQuery::Le(Fv::U64(30))))), Box::new(Filter::Field(("age".into(), RangeQuery::Gt(Fv::U64(30)))))]),
+            ] {
+                st.count("oracle_clamped_queries");
+                if !check_filter(&d.coll, &model, &f, rng, st, &ctx, false).await {
+                    return;
+                }
+            }
+        }
+        for _ in 0..(n_filters / 6).max(2) {
+            metamorphic(&d.coll, &model, rng, st, &ctx).await;
+            check_search(&d.coll, &model, rng, st, &ctx).await;
+        }
+        refusals(&d.coll, st).await;
+        st.sample(|| json!({"documents": model.docs.len(), "example_filter": format!("{:?}", gen_filter(&mut rng.fork(), &model, 3))}));
+    });
+}
+
 fn main() {
-    println!("INCONCLUSIVE property=C03 monitor not built yet");
-    std::process::exit(2);
+    let mut run = Run::from_args(
+        "C03",
+        "exploration",
+        "one evaluation = one generated filter tree evaluated by query_all_ids and by query_ids/query_last_ids for a set of \
+         limits, each compared with the set-algebra evaluator over the model; non-trivial = the filter matches at least one \
+         document; distinct by (filter shape, collection size, case)",
+    );
+    run.assume("a field predicate matches a document iff one of its indexed keys satisfies the range query (documented index derivation: Null skipped, arrays and map keys expanded); range-level Not is therefore a statement about keys, filter-level Not about documents");
+    run.assume("empty And/Or are generated at the range level only (pinned semantics: empty And = empty, as the index crate documents); filter-level And/Or always have at least one operand");
+    run.assume("search_ids expectations are recomputed from the public index views with the documented top_k = min(limit*10, 4096) and the public RRFReranker");
+    let t = run.tier;
+    run.parallel("collections", t.pick(600, 60000), 0.9, |c, rng, st| case(c, rng, st, t.pick(30, 50), false));
+    run.parallel("big", t.pick(2, 16), 0.9, |c, rng, st| case(c, rng, st, t.pick(20, 60), true));
+    run.floor("oracle_query_all_ids", 5000);
+    run.floor("oracle_truncating_pages", 2000);
+    run.floor("oracle_metamorphic_pairs", 1000);
+    run.floor("oracle_search_ids_with_filter", 500);
+    run.floor("search_ids_nonempty_expectations", 50);
+    run.floor("oracle_clamped_queries", 4);
+    run.floor("oracle_budget_refusals", 10);
+    for k in ["top:_id", "top:index_field", "top:And", "top:Or", "top:Not"] {
+        run.floor(k, 200);
+    }
+    run.finish();
 }
